@@ -65,6 +65,9 @@ def gen(ch, cfg, prefix):
             pos = 0 if n == 0 and ch.chance(1, 2) else ch.draw(len(items))
             items[pos] = AwaitableItem(("aw", pos))
     sc.src = g.src(items)
+    if ch.chance(1, 8):
+        # a plain container (can be iterated again from the start): only what the consumer sees is compared then
+        sc.src.flavour, sc.src.suspend = ("list", "tuple")[ch.draw(2)], ()
     ops = []
     for _ in range(ch.between(1, 15)):
         # advance the groupby | advance group -i | close group -i | drain group -i through a library consumer (list)
@@ -205,7 +208,7 @@ def execute(st, ctx):
                 out.violate("C16.not_same_object", (keykind,), dict(describe(), op_index=i))
                 bad = True
                 break
-        if not bad:
+        if not bad and sc.src.flavour not in ("list", "tuple"):
             la, lb = normalise(world.log), normalise(rworld.log)
             pos = first_diff(la, lb)
             if pos is not None:
